@@ -14,12 +14,14 @@ META = {
 HEADER = "Require Import EmbossV.Bounds.Model EmbossV.View.Model EmbossV.View.Exec.\nOpen Scope Z_scope.\n"
 
 
-def compile_ir(text, name="m.emb"):
+def compile_ir(text, name="m.emb", extra=None):
     from compiler.front_end import glue
 
     def reader(fn):
         if fn == name:
             return text, None
+        if extra and fn in extra:
+            return extra[fn], None
         p = os.path.join(fw.REPO, fn)
         if os.path.exists(p):
             return open(p).read(), None
@@ -105,8 +107,9 @@ def run(ctx):
     for i in range(n_mod):
         gm = gen_view.ViewModule(ctx.rng)
         text = gm.text()
+        extra = {"inc.emb": gm.inc_text} if gm.inc_text is not None else None
         try:
-            ir, errors = compile_ir(text)
+            ir, errors = compile_ir(text, extra=extra)
         except Exception as ex:
             ctx.count("compile-crash")
             ctx.note("compiler raised %r on generated module %d" % (ex, i))
@@ -136,12 +139,23 @@ def run(ctx):
             if herrs:
                 ctx.count("header-generation-rejected")
                 continue
-            driver = tr.driver("/*INLINE*/\n" + header, top, [], bufs)
+            pvals = [gm.top_param] if gm.top_param is not None else []
+            if extra:
+                # the imported module's header is generated from its own compilation and inlined in place
+                # of the #include line
+                inc_ir, inc_errs = compile_ir(gm.inc_text, "inc.emb")
+                inc_header, inc_herrs = header_generator.generate_header(inc_ir)
+                if inc_errs or inc_herrs or '#include "inc.emb.h"' not in header:
+                    ctx.count("import-header-unavailable")
+                    continue
+                header = header.replace('#include "inc.emb.h"', inc_header)
+                ctx.count("module-with-import")
+            driver = tr.driver("/*INLINE*/\n" + header, top, pvals, bufs)
         except OutOfModel as ex:
             ctx.count("out-of-model:" + str(ex).split(" ")[0])
             continue
         jobs.append(cpp_build.CppJob("m%d" % i, None, driver))
-        infos.append(dict(i=i, text=text, mod=mod_term, top=top, bufs=bufs, prefix_pairs=prefix_pairs))
+        infos.append(dict(i=i, text=text, mod=mod_term, top=top, bufs=bufs, prefix_pairs=prefix_pairs, pvals=pvals))
     ctx.obligation("tie for size_is_max_end: %d structures' synthesized $size fields have the modelled shape" % n_size_checked,
                    n_size_checked > 0 and not any(v["key"] == "size-synthesis" for v in ctx.violations))
     results = cpp_build.run_jobs(os.path.join(ctx.bdir, "cpp"), jobs, parallel=fw.NPROC)
@@ -155,7 +169,8 @@ def run(ctx):
                           dict(kind="module", module=info["text"], stage=res.stage, log=res.log[-3000:]), found_input=True)
             continue
         k = len(mods)
-        mods.append("(%s, %d%%nat, @nil (maybe value))" % (info["mod"], info["top"]))
+        mods.append("(%s, %d%%nat, %s)" % (info["mod"], info["top"],
+                                           "[" + "; ".join("Some (VInt %d)" % v for v in info["pvals"]) + "]" if info["pvals"] else "@nil (maybe value)"))
         lines = {l.split(" ", 1)[0]: l for l in res.lines if l.startswith("B")}
         for bi, b in enumerate(info["bufs"]):
             l = lines.get("B%d" % bi)
